@@ -7,6 +7,7 @@ mod c18;
 mod gen;
 mod runner;
 mod util;
+mod words;
 
 fn main() {
     let args: Vec<String> = std::env::args().collect();
@@ -19,6 +20,9 @@ fn main() {
         "c04-ops" => c04::ops(rest),
         "c04-spec" => c04::spec(rest),
         "c05-spec" => c05::spec(rest),
+        "word-ops" => words::ops(rest),
+        "c09-spec" => words::c09(rest),
+        "render-all" => words::render_all(rest),
         "runner" => runner::main(rest),
         "gen-stats" => runner::gen_stats(rest),
         _ => { eprintln!("unknown command {cmd:?}"); 2 }
